@@ -66,7 +66,16 @@ pub fn op_place(args: &[Sexp]) -> String {
         }
         let mut top = t::layout::Layout::new("top", 0, t::outline::Outline::rect(1000, 1000).ok()?);
         for i in &insts { top.instances.push(i.clone()); }
-        let topptr = lib.cells.add(top);
+        // every other case, the cell holding the placements is NOT registered in the library: it is
+        // reachable only through an instance of a registered outer cell (as the crate's own ring
+        // oscillator examples build their unit cells) and must be placed all the same
+        let topptr = if specs.len() % 2 == 1 {
+            let mid = Ptr::new(t::cell::Cell::from(top));
+            let mut outer = t::layout::Layout::new("outer", 0, t::outline::Outline::rect(2000, 2000).ok()?);
+            outer.instances.push(Ptr::new(Instance { inst_name: "mid".into(), cell: mid.clone(), loc: (0, 0).into(), reflect_horiz: false, reflect_vert: false }));
+            lib.cells.add(outer);
+            mid
+        } else { lib.cells.add(top) };
         let res = t::placer::Placer::place(lib, empty_stack());
         let out = match res {
             Err(_) => "err".to_string(),
